@@ -219,7 +219,7 @@ class FileInfo:
 
         new_checksum = checksum(data)
 
-        if new_checksum == self.crc:
+        if new_checksum == self.crc and len(data) == self.size and data == self.read():
             return  # Same data, don't do anything.
 
         self.crc = new_checksum
